@@ -162,9 +162,10 @@ Section Local3.
   Theorem poll_rm_closes_internal w i s : get_src w i = Some s -> s_armed s = true -> opens_fd (s_kind s) = true ->
     w_fds (poll_rm w i) = w_fds w - 1 /\ (exists s', get_src (poll_rm w i) i = Some s' /\ s_armed s' = false).
   Proof.
-    intros H Ha Ho. unfold poll_rm. rewrite H, Ha, Ho. split; [reflexivity|].
-    unfold get_src, upd_src in *. cbn [w_srcs set_srcs set_fds].
-    rewrite (nth_error_upd_nth _ _ _ _ H). eexists. split; [reflexivity|]. reflexivity.
+    intros H Ha Ho. unfold poll_rm. rewrite H, Ha, Ho.
+    destruct (skind_eqb (s_kind s) KTask && Nat.eqb (s_pending s) 0); (split; [reflexivity|]);
+      unfold get_src, upd_src, emit in *; cbn [w_srcs set_srcs set_fds];
+      rewrite (nth_error_upd_nth _ _ _ _ H); eexists; (split; [reflexivity|]); reflexivity.
   Qed.
   Theorem poll_rm_idempotent w i s : get_src w i = Some s -> s_armed s = false -> poll_rm w i = w.
   Proof. intros H Ha. unfold poll_rm. rewrite H, Ha. reflexivity. Qed.
